@@ -312,28 +312,21 @@ def write_replay(pid, kind, payload):
     return p
 
 
-def source_drift(anchors):
-    """Hash of the text of each modelled Rust item vs the hash recorded in anchors.json."""
-    p = os.path.join(ROOT, "anchors.json")
-    if not os.path.exists(p):
-        return []
-    rec = json.load(open(p))
-    drift = []
-    for a in anchors:
-        ent = rec.get(a)
-        if not ent:
-            continue
-        f = os.path.join(REPO, ent["file"])
-        try:
-            txt = open(f).read()
-        except OSError:
-            drift.append(a + " (file missing)")
-            continue
-        m = re.search(ent["pattern"], txt, flags=re.S)
-        cur = hashlib.sha256((m.group(0) if m else "").encode()).hexdigest()[:16]
-        if cur != ent["sha"]:
-            drift.append(a)
-    return drift
+def source_drift(cone):
+    """Anchored Rust items (anchors_src.py: one per modelled function, with the Lean definitions
+    that model it) whose source text differs from the hash recorded in anchors.json, restricted to
+    the property's cone. Drift is not a violation; it widens the correspondence run."""
+    import anchors_src
+    alias = {"PGP": "PG", "PGI": "PG", "TAB": "IDX"}
+    cone = {alias.get(c, c) for c in cone}
+    every = anchors_src.drift()
+    mine = [d for d in every if "*" in cone or d[1] in cone or d[1] == "*"
+            or (d[1] in ("IDX", "MAP", "TREE", "TOPO", "MANY") and ("BUILD" in cone or "RUN" in cone))]
+    widen = set()
+    for _, st, _ in mine:
+        widen.update(anchors_src.STAGE_RUNS.get(st, []))
+    return {"items_anchored": anchors_src.summary(), "drifted_in_cone": [f"{k}: {w}" for k, _, w in mine],
+            "drifted_total": len(every), "widened_stages": sorted(widen)}, widen
 
 
 # ----------------------------------------------------------------------------- main check
@@ -344,6 +337,7 @@ def check(pid, tier, seed):
     spec = PROPS[pid]
     violations = []  # (kind, replay payload, has_input)
     log = []
+    drift, widen = source_drift(spec.get("cone", []))
 
     # (1) proofs: the property's own file Props/<pid>.lean (if any) plus the theorems of other
     # modules that the property's claim rests on (spec["theorems"] = [(module, [names…])…])
@@ -405,7 +399,9 @@ def check(pid, tier, seed):
         known = load_known_findings()
         for st in spec["stages"]:
             stage, extra = (st, []) if isinstance(st, str) else (st[0], st[1])
-            info, recs, verdicts = run_stage(stage, tier, seed, extra)
+            # a drifted source item in the cone: run the stages that exercise it with the thorough budget
+            info, recs, verdicts = run_stage(stage, "thorough" if stage in widen else tier, seed, extra)
+            info["widened_for_drift"] = stage in widen
             cl = classify(recs, verdicts, pid, spec)
             info.update({k: len(v) for k, v in cl.items()})
             stages_info.append(info)
@@ -508,7 +504,6 @@ def check(pid, tier, seed):
     if violations:
         rc = 1
     wall = time.time() - t0
-    drift = source_drift(spec.get("anchors", []))
     evidence = {
         "property_id": pid,
         "tier": tier,
